@@ -18,7 +18,7 @@ def _norm_attr(attr):
 
 class C16(Machine):
     ID = "C16"
-    FAMILY_WEIGHTS = {"sparse": 3, "dense": 1, "canal": 2, "modular": 3, "maa": 2, "cascade": 2, "maa_cascade": 4, "degenerate": 1, "maa_deadpad": 1}
+    FAMILY_WEIGHTS = {"sparse": 3, "dense": 1, "canal": 2, "modular": 3, "maa": 2, "cascade": 2, "maa_cascade": 4, "degenerate": 1, "maa_deadpad": 1, "inputs_mix": 2}
     NMAX = {"quick": 6, "thorough": 7}
     FMTS = ("bnet", "aeon", "api")
 
@@ -39,14 +39,14 @@ class C16(Machine):
             sc["params"]["kinds"] = prng.choice([["reclaim"], ["pickle"], ["reclaim", "pickle"], ["evict"]])
             sc["net"] = gen_network(sub_rng(run_seed, "net-skip-raw"), {"maa_cascade": 3, "maa": 1, "modular": 1}, nmax=self.NMAX.get(tier, 6), fmts=self.FMTS, shuffle_order=True)
             return sc
-        if prng.random() < 0.1:
+        if prng.random() < 0.15:
             # cached-net history: percolated Petri nets are caches that later calls read
             # (expansion, skipping, candidate search).  Fill them through the public method,
             # also with its parent_id keyword and a parent that did not create the node, drop
             # them (the fault), then run the consumers.
             sc["params"]["mode"] = "cached_net"
             sc["params"]["kinds"] = prng.choice([["reclaim"], ["reclaim"], ["pickle"], ["evict"]])
-            sc["net"] = gen_network(sub_rng(run_seed, "net-cached-net"), {"modular": 3, "cascade": 2, "maa_cascade": 1, "canal": 1}, nmax=self.NMAX.get(tier, 6), fmts=self.FMTS, shuffle_order=True)
+            sc["net"] = gen_network(sub_rng(run_seed, "net-cached-net"), {"modular": 3, "cascade": 2, "maa_cascade": 1, "canal": 2, "sparse": 2, "degenerate": 1, "inputs_mix": 4}, nmax=self.NMAX.get(tier, 6), fmts=self.FMTS, shuffle_order=True)
             return sc
         if prng.random() < 0.45:
             # a non-default configuration must survive the round trip as well: later answers
@@ -191,6 +191,15 @@ class C16(Machine):
         w = self.make_world(sc)
         if w.log[0]["out"]["cls"] != "ok":
             return []
+        if rng.random() < 0.4:
+            # root first: the root's own net is cached by a query on the unexpanded root, the
+            # fault drops it, then the root is expanded (cached restricted net vs global net)
+            ops = [rng.choice([{"op": "perc_pn", "node": w.space_of(0)}, {"op": "candidates", "node": w.space_of(0), "compute": True, "greedy": True, "sim": True}, {"op": "seeds", "node": w.space_of(0), "compute": True, "fallback": False}])]
+            ops.append(self.fault_op(w, frng, sc["params"]["kinds"]))
+            ops.append(rng.choice([{"op": "expand_one", "node": w.space_of(0)}, {"op": "bfs", "node": None, "level": None, "size": None}, {"op": "dfs", "node": None, "stack": None, "size": None}, {"op": "minimal", "node": None, "size": None, "skip": False}]))
+            ops.append({"op": "bfs", "node": None, "level": None, "size": None})
+            ops.append({"op": "exp_seeds"})
+            return ops
         ops = [{"op": "bfs", "node": None, "level": rng.choice([1, 1, 2]), "size": None}]
         w.apply(ops[0])
         sd = w.sd
